@@ -41,10 +41,18 @@ for pid in ids:
     })
 na = [{"property_id": pid, "reason": D.NOT_APPLICABLE.get(pid, "check not built yet (work in progress; DESIGN.md section 11)")}
       for pid in ids if pid not in CH]
+import subprocess
+hooks = dict(D.HOOKS)
+try:
+    out = subprocess.run(["git", "-C", "/repo", "log", "--grep", "^verif hook:", "--format=%h %s"],
+                         capture_output=True, text=True).stdout
+    hooks["source_commits"] = [l.strip() for l in out.splitlines() if l.strip()][::-1]
+except Exception:
+    pass
 m = {
     "version": 1,
     "setup_cmd": "./setup.sh",
-    "hooks": D.HOOKS,
+    "hooks": hooks,
     "engines": D.ENGINES,
     "checks": checks,
     "notes": D.NOTES,
